@@ -88,17 +88,32 @@ unmangle!(
         out_buf_size: *mut usize,
         flags: u32,
     ) -> i32 {
+        // Null pointers from C are reported as a parameter error instead of being dereferenced.
+        let (r_ref, in_buf_size, out_buf_size) =
+            match (r.as_mut(), in_buf_size.as_mut(), out_buf_size.as_mut()) {
+                (Some(r_ref), Some(in_buf_size), Some(out_buf_size)) => {
+                    (r_ref, in_buf_size, out_buf_size)
+                }
+                _ => return TINFLStatus::BadParam as i32,
+            };
         let next_pos = out_buf_next as usize - out_buf_start as usize;
         let out_size = *out_buf_size + next_pos;
-        let r_ref = r.as_mut().expect("bad decompressor pointer");
+        if (*in_buf_size != 0 && in_buf.is_null()) || (out_size != 0 && out_buf_start.is_null()) {
+            return TINFLStatus::BadParam as i32;
+        }
+        let in_slice = if *in_buf_size == 0 {
+            &[]
+        } else {
+            slice::from_raw_parts(in_buf, *in_buf_size)
+        };
+        let out_slice = if out_size == 0 {
+            &mut []
+        } else {
+            slice::from_raw_parts_mut(out_buf_start, out_size)
+        };
         if let Some(decompressor) = r_ref.inner.as_mut() {
-            let (status, in_consumed, out_consumed) = decompress(
-                decompressor.as_mut(),
-                slice::from_raw_parts(in_buf, *in_buf_size),
-                slice::from_raw_parts_mut(out_buf_start, out_size),
-                next_pos,
-                flags,
-            );
+            let (status, in_consumed, out_consumed) =
+                decompress(decompressor.as_mut(), in_slice, out_slice, next_pos, flags);
 
             *in_buf_size = in_consumed;
             *out_buf_size = out_consumed;
@@ -116,12 +131,25 @@ unmangle!(
         flags: c_int,
     ) -> size_t {
         let flags = flags as u32;
+        if (src_buf_len != 0 && p_src_buf.is_null()) || (out_buf_len != 0 && p_out_buf.is_null()) {
+            return TINFL_DECOMPRESS_MEM_TO_MEM_FAILED as size_t;
+        }
+        let src_slice = if src_buf_len == 0 {
+            &[]
+        } else {
+            slice::from_raw_parts(p_src_buf as *const u8, src_buf_len)
+        };
+        let out_slice = if out_buf_len == 0 {
+            &mut []
+        } else {
+            slice::from_raw_parts_mut(p_out_buf as *mut u8, out_buf_len)
+        };
         let mut decomp = Box::<DecompressorOxide>::default();
 
         let (status, _, out_consumed) = decompress(
             &mut decomp,
-            slice::from_raw_parts(p_src_buf as *const u8, src_buf_len),
-            slice::from_raw_parts_mut(p_out_buf as *mut u8, out_buf_len),
+            src_slice,
+            out_slice,
             0,
             (flags & !inflate_flags::TINFL_FLAG_HAS_MORE_INPUT)
                 | inflate_flags::TINFL_FLAG_USING_NON_WRAPPING_OUTPUT_BUF,
@@ -148,6 +176,21 @@ unmangle!(
         let flags = flags as u32;
         const MIN_BUFFER_CAPACITY: size_t = 128;
 
+        // Null pointers from C are reported as a failure instead of being dereferenced.
+        let p_out_len = match p_out_len.as_mut() {
+            Some(p_out_len) => p_out_len,
+            None => return ptr::null_mut(),
+        };
+        if src_buf_len != 0 && p_src_buf.is_null() {
+            *p_out_len = 0;
+            return ptr::null_mut();
+        }
+        let src_slice = if src_buf_len == 0 {
+            &[]
+        } else {
+            slice::from_raw_parts(p_src_buf as *const u8, src_buf_len)
+        };
+
         // We're not using a Vec for the buffer here to make sure the buffer is allocated and freed by
         // the same allocator.
 
@@ -164,10 +207,7 @@ unmangle!(
         loop {
             let (status, in_consumed, out_consumed) = decompress(
                 &mut decomp,
-                slice::from_raw_parts(
-                    p_src_buf.add(src_buf_ofs) as *const u8,
-                    src_buf_len - src_buf_ofs,
-                ),
+                &src_slice[src_buf_ofs..],
                 slice::from_raw_parts_mut(p_buf as *mut u8, out_buf_capacity),
                 *p_out_len,
                 (flags & !inflate_flags::TINFL_FLAG_HAS_MORE_INPUT)
@@ -232,21 +272,20 @@ unmangle!(
     }
 
     pub unsafe extern "C" fn tinfl_init(c: *mut tinfl_decompressor) {
-        let wrapped = c.as_mut().unwrap();
-        if let Some(decomp) = wrapped.inner.as_mut() {
-            decomp.init();
-        } else {
-            wrapped.inner.replace(Box::default());
+        if let Some(wrapped) = c.as_mut() {
+            if let Some(decomp) = wrapped.inner.as_mut() {
+                decomp.init();
+            } else {
+                wrapped.inner.replace(Box::default());
+            }
         }
     }
 
     pub unsafe extern "C" fn tinfl_get_adler32(c: *mut tinfl_decompressor) -> c_int {
-        let wrapped = c.as_mut().unwrap();
-        if let Some(decomp) = wrapped.inner.as_mut() {
+        match c.as_mut().and_then(|wrapped| wrapped.inner.as_mut()) {
             // TODO: Need to test if conversion is ok.
-            decomp.adler32().unwrap_or(0) as c_int
-        } else {
-            0
+            Some(decomp) => decomp.adler32().unwrap_or(0) as c_int,
+            None => 0,
         }
     }
 );
